@@ -389,7 +389,7 @@ def check(ctx):
            ok, detail=detail, stmt="initial states " + pretty(ms_arg or ())[:200])
     # jittered position: per function key i, split per chain, applied to the same key's value
     jp = [(loc, val) for loc, val, _, _ in rb.stores if loc[0] == "s"
-          and loc[1] == ("dict", ())]
+          and loc[1][0] == "dict" and loc[1][1] == ()]
     ok_j = False
     if len(jp) == 1:
         loc, val = jp[0]
